@@ -7,6 +7,9 @@ from concurrent.futures import ProcessPoolExecutor
 VERIF = os.path.dirname(os.path.dirname(os.path.abspath(__file__)))
 sys.path.insert(0, VERIF)
 PROPS = [f"C{i:02d}" for i in range(1, 21)]
+# known findings reported on the unchanged tree (property -> ids): a refactoring that keeps behaviour keeps the defects too, so a
+# finding that silently disappears on a probe means a rule lost sight of the code (a miss in waiting), and is printed as well
+BASE_KNOWN = {"C02": {"F1"}, "C03": {"F1"}, "C05": {"F1"}, "C06": {"F1"}, "C08": {"F1"}, "C14": {"F1"}, "C15": {"F5a", "F5b", "F5c"}, "C16": {"F6"}, "C17": {"F6"}}
 
 
 def one(name: str):
@@ -25,6 +28,9 @@ def one(name: str):
         for p in PROPS:
             reps = []
             c = run_check(p, "quick", t, 0, write=False, rep_out=reps)
+            lost = BASE_KNOWN.get(p, set()) - {o.known for o in reps[0].known_hits()}
+            if lost and c == 0:
+                out.append(f"== {p} LOST known finding(s) {sorted(lost)}")
             if c != 0:
                 rp = reps[0]
                 out.append(f"== {p} exit {c}")
